@@ -21,10 +21,13 @@ pub fn evaluate(lines: &[String]) -> Result<Outcome, String> {
     evaluate_in_mode(lines, None)
 }
 
+/// `mode`: None = no [General] section; Some(m) with m < 4 = `Mode: m` under v14; Some(4 + 4k + m) = the
+/// same under another format version (the grammar does not depend on the version either)
 fn file_in_mode(lines: &[String], mode: Option<u8>) -> String {
+    const VERS: [i32; 8] = [14, 3, 5, 7, 8, 9, 12, 128];
     match mode {
         None => file_of(lines),
-        Some(m) => format!("osu file format v14\n\n[General]\nMode: {m}\n\n[HitObjects]\n{}\n", lines.join("\n")),
+        Some(m) => format!("osu file format v{}\n\n[General]\nMode: {}\n\n[HitObjects]\n{}\n", VERS[(m / 4) as usize % 8], m % 4, lines.join("\n")),
     }
 }
 
@@ -116,7 +119,8 @@ pub fn evaluate_in_mode(lines: &[String], mode: Option<u8>) -> Result<Outcome, S
 
 // ---------- generator ----------
 fn numtok(t: &mut Tape) -> String {
-    match t.below(16) {
+    match t.below(17) {
+        16 => crate::gen::doc::odd_number(t).to_string(),
         0 => "0".into(),
         1 => format!("{}", t.int(0, 512)),
         2 => format!("-{}", t.int(0, 300)),
@@ -263,14 +267,31 @@ fn genline(t: &mut Tape, clock: &mut i64) -> String {
 fn gen_mode_opt(t: &mut Tape) -> Option<u8> {
     match t.below(5) {
         0 => None,
-        k => Some((k - 1) as u8),
+        k => Some((k - 1) as u8 + 4 * t.below(8) as u8),
     }
 }
 
 pub fn gen_lines(t: &mut Tape) -> Vec<String> {
     let nl = 1 + t.below(6);
     let mut clock = t.int(0, 40) * 250;
-    (0..nl).map(|_| genline(t, &mut clock)).collect()
+    let mut v: Vec<String> = (0..nl).map(|_| genline(t, &mut clock)).collect();
+    // the [HitObjects] section interrupted by another section and resumed: the decoder switches sections, the
+    // reference parser sees three lines that are no hit objects - either way nothing is added and the
+    // running state (first object, spinner before) carries over
+    if t.chance(10) {
+        let at = t.below(v.len() + 1);
+        let mid: &[&str] = match t.below(5) {
+            0 => &["[Colours]", "Combo1 : 1,2,3", "[HitObjects]"],
+            1 => &["[Metadata]", "Title:x", "[HitObjects]"],
+            2 => &["[Editor]", "[HitObjects]"],
+            3 => &["[Unknown]", "[HitObjects]"],
+            _ => &["[General]", "StackLeniency: 0.3", "[HitObjects]"],
+        };
+        for (k, l) in mid.iter().enumerate() {
+            v.insert(at + k, l.to_string());
+        }
+    }
+    v
 }
 
 const SUFFIXES: [&str; 4] = ["", ",L|200:200,1,100", ",2000", ",2000:1:2:3:40:"];
@@ -324,13 +345,16 @@ pub fn run(ctx: &mut Ctx) {
                 st.label_n("rejected lines", (lines.len() - o.accepted.min(lines.len())) as u64);
                 st.label_n("sliders", o.sliders as u64);
                 st.label_n("multi-segment sliders", o.multiseg as u64);
-                st.label(match mode {
+                st.label(match mode.map(|m| m % 4) {
                     None => "no Mode line",
                     Some(0) => "Mode: 0",
                     Some(1) => "Mode: 1",
                     Some(2) => "Mode: 2",
                     _ => "Mode: 3",
                 });
+                if mode.map_or(false, |m| m >= 4) {
+                    st.label("format version != 14");
+                }
                 Ok(())
             }
             Err(m) => Err(Fail::new(m, "osu", file_in_mode(&lines, mode).into_bytes())),
@@ -357,7 +381,8 @@ pub fn replay(_ctx: &mut Ctx, ext: &str, bytes: &[u8]) -> Result<Option<String>,
             if in_ho {
                 v.push(l.to_string());
             } else if let Some(m) = l.strip_prefix("Mode: ") {
-                mode = m.trim().parse().ok();
+                let vi = text.lines().next().and_then(|h| h.strip_prefix("osu file format v")).and_then(|v| v.trim().parse::<i32>().ok()).and_then(|v| [14, 3, 5, 7, 8, 9, 12, 128].iter().position(|x| *x == v)).unwrap_or(0) as u8;
+                mode = m.trim().parse::<u8>().ok().map(|m| m % 4 + 4 * vi);
             }
         }
         v
@@ -377,15 +402,14 @@ pub fn fuzz_text(sel: u8, text: &str) -> Result<bool, Fail> {
     use rosu_map::section::Section;
     let mode = match sel % 5 {
         0 => None,
-        k => Some(k - 1),
+        k => Some(k - 1 + 4 * ((sel / 5) % 8)),
     };
     let lines: Vec<String> = text.split('\n').map(|l| l.to_string()).collect();
     let file = file_in_mode(&lines, mode);
     let fr = frame(&file);
     let expect: Vec<&str> = lines.iter().map(|l| l.trim_end()).filter(|tl| !tl.is_empty() && !tl.trim_start().starts_with("//")).collect();
     let prefix = usize::from(mode.is_some());
-    let same = fr.version == 14
-        && fr.trace.len() == prefix + expect.len()
+    let same = fr.trace.len() == prefix + expect.len()
         && fr.trace[..prefix].iter().all(|(s, _)| *s == Section::General)
         && fr.trace[prefix..].iter().zip(&expect).all(|((s, l), e)| *s == Section::HitObjects && l == e);
     if !same {
